@@ -259,7 +259,7 @@ def run(chk):
                 chk.ob("R19.5", W, "expand_symmetry_related_planes", f"the entry {table}[{key}] is replaced under a test on {table}[{key}] itself (membership and "
                        "stored energy of the same key)", all(k == key for k in looked + member), node=st_, fingerprint=f"same-key:{key}",
                        expected=f"{key} not in {table} or E[{table}[{key}]] > E[i]", found=f"tests {sorted(set(looked + member))}")
-        chk.need(n5 >= 2, f"expand_symmetry_related_planes: expected two guarded replacements (direction and its opposite), found {n5}")
+        chk.need(n5 >= 1, f"expand_symmetry_related_planes: no guarded replacement of a direction's entry found")
     pv = w.ev("WulffConstruction._populate_duals")
     xv = w.ev("WulffConstruction._extract_wulff_from_dual_mesh", opaque={"simplices", "normals", "facet_indices", "corresponding_facet_normals",
                                                                            "corresponding_facet_energies", "inv_factors", "scaling_factors", "vertices", "a", "b", "c"})
